@@ -644,15 +644,31 @@ def run_property(prop, tier, seed):
 
 
 def replay(prop, path):
-    """re-validate a replay file with TLC (spec side) and print how to re-run it on the real code"""
+    """(1) re-judge the recorded event of a replay file with TLC (specification side); (2) rebuild the configuration
+    from the current working tree, re-run exactly that case on the real code and validate the new trace.
+    Exit 1 if the current tree still shows the rejection, 0 if it does not."""
+    if not path.endswith('.ndjson'):
+        log(open(path).read()[:4000])
+        return 1
     lines = vlib.load_lines(path)
     hdr = json.loads([x for x in lines if x.strip()][-1])
-    tmp = os.path.join(vlib.BUILD, 'replay_tmp.ndjson')
     os.makedirs(vlib.BUILD, exist_ok=True)
+    tmp = os.path.join(vlib.BUILD, 'replay_tmp.ndjson')
     with open(tmp, 'w') as f:
         f.write('\n'.join(x for x in lines if x.strip() and not x.startswith('{"e": "replay"') and not x.startswith('{"e":"replay"')) + '\n')
     job = TraceJob(hdr['cfg'], hdr['family'], spec=hdr.get('spec', 'TraceOps'))
+    vlib.build_overrides()
     r = vlib.run_tlc_trace(job, tmp, vlib.BUILD)
-    log('replay of %s: fails=%s crashes=%s' % (path, r['fails'], r['crashes']))
-    log('re-run on the real code: ' + hdr['rerun'])
-    return 1 if (r['fails'] or r['crashes']) else 0
+    log('recorded event re-judged by the specification: fails=%s crashes=%s' % (r['fails'], r['crashes']))
+    if hdr.get('case', -1) in (-1, None):
+        return 1 if (r['fails'] or r['crashes']) else 0
+    vlib.build([hdr['cfg']])
+    out = os.path.join(vlib.BUILD, 'replay_rerun.ndjson')
+    cmd = [vlib.vh(hdr['cfg']), 'drive', hdr['family'], '--out', out, '--seed', str(hdr['seed']), '--tier', hdr['tier']] + hdr.get('args', []) + ['--only', str(hdr['case'])]
+    rc, o = vlib.sh(cmd, timeout=900, env={'ASAN_OPTIONS': 'detect_leaks=0:abort_on_error=1'})
+    if rc != 0:
+        log('re-run of the case failed to execute (rc=%d):\n%s' % (rc, o[-1500:]))
+        return 2
+    r2 = vlib.run_tlc_trace(job, out, vlib.BUILD)
+    log('case %s re-run on the current working tree: fails=%s crashes=%s' % (hdr['case'], r2['fails'], r2['crashes']))
+    return 1 if (r2['fails'] or r2['crashes']) else 0
